@@ -15,6 +15,8 @@ CLAIMED['C02'] = dict(text='dvect.pyx/dmag.pyx re-translated from source and exe
              note='Real arithmetic (ties in mag_test < mag_d are float matters); dead-zone assumption on tilts; tilted-cell half-width nearest-image clause not decided.', ref='§5 C02')
 CLAIMED['C11'] = dict(text='Solver verdict over all 21-constant stiffness matrices (entries 0 or 1e-3..1000): the 81-entry index map and its setters, Cij9, compliance contraction C:S = symmetric identity and the Sijkl weight split (6x6 inverse as contract stub), transform() equal to the rank-4 rotation law for EVERY proper orthonormal axes matrix (9 reals with the orthonormality relations) on the independent entries, the 24 cubic rotations incl. inverse and sampled compositions, z-rotations by any angle (identity/inverse/composition, strain-energy invariance, hexagonal invariance), all crystal-system constructors against an independently coded Nye table incl. invariance under their symmetry generators, all 15 isotropic modulus pairs over (lambda, mu), Voigt/Reuss/Hill moduli, normalized_as idempotence.',
              note='Real arithmetic; np.linalg.inv(6x6) is a contract stub (X.C = C.X = I, symmetric, functional, inverse-of-inverse); dead-zone assumption for near-zero thresholds; transform threshold handled by a threshold lemma.', ref='§5 C11')
+CLAIMED['C03'] = dict(text='nlist.pyx re-translated from source and executed on symbolic atom coordinates (2 atoms quick, 3 thorough) in a table of concrete (cell, cutoff, pbc) entries: bin indices, ghost membership and the cutoff comparison fork, so each explored path is a whole region of configuration space on which the list is decided against the symbolic C02 periodic distance (listed <=> distance < cutoff), plus symmetry/order/coord and dump->load. Sub-boxes whose work-list is exhausted are decided completely; the rest is reported as unexplored. Translator validated against the freshly compiled extension (random systems, storage sizes, 45 atoms per bin).',
+             note='Concrete cells and cutoffs from a table; N<=3; real arithmetic at bin edges; regions left unexplored within the time budget are counted in the evidence (worklist_remaining).', ref='§5 C03')
 NA = {}
 props = [json.loads(l) for l in open(os.path.join(V, 'properties.jsonl'))]
 checks = []; na = []
